@@ -36,6 +36,25 @@ def gen_case(sd, idx, engine_kind):
                     "rate": (0.2, 3.0)},
             "grid": {"dims": (1, 3), "max_cells": 8}, "graph": {"nodes": (1, 6), "simple": False}}
     desc = gen.rand_system(r, opts)
+    if idx % 25 == 9:
+        # a hub with 255..300 neighbours (pure diffusion from a well-filled hub: every leaf must be reachable, the waiting
+        # times are those of the sum over all its channels)
+        nleaf = r.choice([255, 256, 257, 300])
+        ne = len(desc["envs"])
+        nodes = [{"vol": (h * 3.0) ** 3, "env": r.randrange(ne)}] + [{"vol": (h * r.uniform(0.6, 1.8)) ** 3, "env": r.randrange(ne)} for _ in range(nleaf)]
+        edges = [{"i": 0 if r.random() < 0.5 else j, "j": None, "sfc": h * h * r.uniform(0.3, 2.0), "dst": h * r.uniform(0.5, 2.0)} for j in range(1, nleaf + 1)]
+        for j, e_ in enumerate(edges, start=1):
+            e_["j"] = j if e_["i"] == 0 else 0
+        r.shuffle(edges)
+        desc["space"] = {"type": "graph", "nodes": nodes, "edges": edges}
+        desc["reactions"] = []
+        for s_ in desc["species"]:
+            s_["D"] = r.uniform(0.5, 2.0) * h * h
+            s_["chstt"] = False
+        S_ = len(desc["species"])
+        desc["state"] = [(float(r.randint(2000, 6000)) if i_ == 0 else float(r.randint(0, 3))) for _ in range(S_) for i_ in range(nleaf + 1)]
+        desc["chemostats"] = None
+        return desc, None
     # make sure something of order >= 2 with a repeated reactant is often present (x(x-1) vs x^2 matters at small counts)
     labels = [s["label"] for s in desc["species"]]
     V = h ** 3
@@ -212,6 +231,12 @@ def run_case(case):
         dt = r.choice([0.03, 0.1, 0.3]) / maxrate
         if fixed_dt is not None:
             dt = fixed_dt
+        elif r.random() < 0.25:
+            # coarse leaps (more events drawn than a cell holds; counts undershoot below zero): the firing numbers are still
+            # Poisson with mean propensity x step - nothing clamps them.  A handful of steps only (such a leap is unstable).
+            dt = r.choice([1.5, 3.0]) / maxrate
+            nst = min(nst, 5)
+            cnt("tauleap_coarse_cases")
         script = simhelp.make_script(system, r, dt_si=dt, t_sample_si=[0.0], policy="on_iteration", t_max_si=1e30, usys=usys,
                                      isp="none", seed=sseed)
         t, d, complete, out = simhelp.run_script("tauleap", script, nst)
